@@ -433,6 +433,21 @@ fn emit_case(out: &mut impl Write, cid: &str, lang_id: &str, lang: &Language, tr
                 write!(l, " {n}").unwrap();
             }
             writeln!(out, "{l}").unwrap();
+            // capture quantifiers as the compiler computed them: cq <pattern> (<0..4>)* in capture order
+            for p in 0..q.pattern_count() {
+                let mut l = format!("cq {p}");
+                for cq in q.capture_quantifiers(p) {
+                    let k = match cq {
+                        tree_sitter::CaptureQuantifier::Zero => 0,
+                        tree_sitter::CaptureQuantifier::ZeroOrOne => 1,
+                        tree_sitter::CaptureQuantifier::ZeroOrMore => 2,
+                        tree_sitter::CaptureQuantifier::One => 3,
+                        tree_sitter::CaptureQuantifier::OneOrMore => 4,
+                    };
+                    write!(l, " {k}").unwrap();
+                }
+                writeln!(out, "{l}").unwrap();
+            }
             let mut cur = QueryCursor::new();
             cur.set_match_limit(u32::MAX);
             let mut it = cur.matches(&q, tree.root_node(), text);
